@@ -14,13 +14,13 @@ GenEnv ==
     \/ sm.state = "ready" /\ Pick = 0 /\ ImmUp /\ UNCHANGED cnt
     \/ roundFor # 0 /\ recorded[roundFor] = {} /\ (\E S \in RegSets : Register(S)) /\ UNCHANGED cnt
     \/ \E p \in Party : \E en \in OpenEntities : Sign(p, p, en) /\ UNCHANGED cnt
-    \/ cnt.early < 3 /\ sm.state = "ready" /\ (\E p \in Party : \E en \in {MSD(epoch), CDB(epoch, imm)} : SignEarly(p, p, en))
+    \/ cnt.early < 3 /\ sm.state = "ready" /\ (\E p \in Party : \E en \in CurrentEntities : SignEarly(p, p, en))
           /\ cnt' = [cnt EXCEPT !.early = @ + 1]
     \/ cnt.relabels < 2 /\ (\E p, lbl \in Party : \E en \in OpenEntities : p # lbl /\ Sign(p, lbl, en))
           /\ cnt' = [cnt EXCEPT !.relabels = @ + 1]
     \/ cnt.late < 6 /\ (\E p \in Party : \E en \in OpenEntities : SignLate(p, en)) /\ cnt' = [cnt EXCEPT !.late = @ + 1]
     \/ cnt.bad < 4 /\ (\E p, lbl \in Party : \E en \in OpenEntities : SignBad(p, lbl, en)) /\ cnt' = [cnt EXCEPT !.bad = @ + 1]
-    \/ cnt.expires < 1 /\ (\E en \in OpenEntities : Expire(en)) /\ cnt' = [cnt EXCEPT !.expires = @ + 1]
+    \/ cnt.expires < 2 /\ (\E en \in OpenEntities : Expire(en)) /\ cnt' = [cnt EXCEPT !.expires = @ + 1]
     \/ sealing = "none" /\ cnt.restarts < 2 /\ Len(certs) >= 2 /\ Restart /\ cnt' = [cnt EXCEPT !.restarts = @ + 1]
     \/ sealing # "none" /\ cnt.crashes < 2 /\ Restart /\ cnt' = [cnt EXCEPT !.crashes = @ + 1]
     \/ cnt.crashes < 2 /\ StopBeforeInsert /\ cnt' = [cnt EXCEPT !.crashes = @ + 1]
